@@ -378,6 +378,20 @@ JudgeWindow(sp) ==
          \cup (IF sp.tab0 = 0 THEN {}
                ELSE UNION {IF Tables[sp.tab0][k].id \in ids THEN {} ELSE WindowOf(sp, sp.tab0, k) : k \in 1..Len(Tables[sp.tab0])})
 
+\* C14: what the decoders of a Modbus family take out of an accepted answer lies inside it (observed at ProtocolResponse.read:
+\* sp.short lists the reads for which fewer bytes were there than asked for - also those of computed sensors, whose
+\* definitions name their registers only in code).  A listed sensor of the known findings reaching outside its window is
+\* reported by C14.Window with its id; the read itself is attributed to it here.
+JudgeTouch(sp) ==
+    IF ~sp.modbus \/ ~sp.ok THEN {}
+    ELSE LET tab == IF sp.tab = 0 THEN <<>> ELSE Tables[sp.tab]
+             Owner(t) == {k \in 1..Len(tab) : tab[k].size > 0 /\ tab[k].addr <= t.a /\ t.a < tab[k].addr + (tab[k].size + 1) \div 2}
+             \* owners whose declared registers already fail C14.Window: the same defect, reported there under the sensor's id
+             Reported(t) == \E k \in Owner(t) : WindowOf(sp, sp.tab, k) # {} IN
+         UNION {IF Reported(sp.short[i]) THEN {}
+                ELSE IF Owner(sp.short[i]) = {} THEN {"C14.ReadPastEnd:" \o ToString(sp.short[i].a)}
+                ELSE {"C14.ReadPastEnd:" \o tab[CHOOSE k \in Owner(sp.short[i]) : TRUE].id} : i \in 1..Len(sp.short)}
+
 \* C15: keys of the result = ids of sensors() right after the call; success no later than the second call
 JudgeKeys(sp) ==
     IF sp.api # "runtime" THEN {}
@@ -430,7 +444,7 @@ Judge(sp0) ==
     LET sp == [sp0 EXCEPT !.resp = RespInfo(sp0)] IN
     JudgeWrite(sp0, sp) \cup
     (IF sp.decode THEN (IF sp.single THEN JudgeSingle(sp) ELSE JudgeBulk(sp)) ELSE {})
-    \cup JudgeWindow(sp) \cup JudgeKeys(sp) \cup JudgeReadOnly(sp0) \cup JudgeSameAsBulk(sp) \cup JudgeOverlap(sp) \cup JudgeSize(sp)
+    \cup JudgeWindow(sp) \cup JudgeKeys(sp) \cup JudgeReadOnly(sp0) \cup JudgeSameAsBulk(sp) \cup JudgeOverlap(sp) \cup JudgeSize(sp) \cup JudgeTouch(sp)
 
 VARIABLES sid, done
 vars == <<sid, done>>
